@@ -130,7 +130,7 @@ def dump(doc):
     return sf.getvalue()
 
 
-def run(case, overwrite):
+def run(case, overwrite, keep=False):
     doc = build(case)
     before = walk(doc)  # keeps every object alive: id() stays unique
     emb_before = [(c.morphology, c.biophysical_properties) for c in all_cells(doc)]
@@ -176,6 +176,8 @@ def run(case, overwrite):
                 if any(i in old_ids or i in seen_new for i in ids) or len(set(ids)) != len(ids):
                     r["copies_fresh"] = False
                 seen_new.update(ids)
+                if keep:
+                    KEEP.append((len(KEEP), subtree(o)))
         # behavioural independence: change one embedded copy, nothing else may change
         target = None
         for ci, c in enumerate(new_cells):
@@ -239,28 +241,97 @@ def run_parser(case, root):
     return r
 
 
+H5_FORMS = (".nml.h5", ".h5", ".hdf5")
+
+
+def write_incs(case, root):
+    """(re)write the included files of a case: XML text, or - for the HDF5 forms - a NeuroML HDF5 file written by the
+    repo's writer (one network, the definitions in the embedded XML)"""
+    for fn in os.listdir(root):
+        if fn.startswith("inc"):
+            os.remove(os.path.join(root, fn))
+    for inc in case["incs"]:
+        if inc.get("missing"):
+            continue
+        path = os.path.join(root, inc["href"])
+        if inc["href"].endswith(H5_FORMS):
+            d = neuroml.NeuroMLDocument(id="inc")
+            d.networks.append(neuroml.Network(id="incnet"))
+            for o in inc["morphs"]:
+                d.morphology.append(mk_obj("m", o))
+            for o in inc["bios"]:
+                d.biophysical_properties.append(mk_obj("b", o))
+            W.NeuroMLHdf5Writer.write(d, path)
+        else:
+            body = "".join(obj_xml("m", o) for o in inc["morphs"]) + "".join(obj_xml("b", o) for o in inc["bios"])
+            with open(path, "w") as fh:
+                fh.write('<neuroml %s id="inc">%s</neuroml>' % (NS, body))
+
+
+KEEP = []  # objects of earlier calls of a history, kept alive for the identity checks between calls
+
+
+def exec_case(case, root, keep=False):
+    write_incs(case, root)
+    res = {"true": run(case, True, keep), "false": run(case, False, keep)}
+    if case.get("via_parser"):
+        res["parser"] = run_parser(case, root)
+    return res
+
+
+def forked(case, root):
+    """run one case in a forked child: process state (module globals, caches) as after import, whatever ran before"""
+    r, w = os.pipe()
+    pid = os.fork()
+    if pid == 0:
+        try:
+            os.close(r)
+            os.chdir(root)
+            data = json.dumps(exec_case(case, root))
+            with os.fdopen(w, "w") as fh:
+                fh.write(data)
+        finally:
+            os._exit(0)
+    os.close(w)
+    with os.fdopen(r) as fh:
+        data = fh.read()
+    os.waitpid(pid, 0)
+    return json.loads(data)
+
+
 def main():
     req = json.load(sys.stdin)
     top = os.path.realpath(tempfile.mkdtemp(prefix="c17_"))
     home = os.getcwd()
-    out = []
+    out, hist_out = [], []
     try:
-        for i, case in enumerate(req["cases"]):
+        for i, case in enumerate(req.get("cases", [])):
             root = os.path.join(top, "k%d" % i)
             os.makedirs(root)
-            for inc in case["incs"]:
-                if inc.get("missing"):
-                    continue
-                body = "".join(obj_xml("m", o) for o in inc["morphs"]) + "".join(obj_xml("b", o) for o in inc["bios"])
-                with open(os.path.join(root, inc["href"]), "w") as fh:
-                    fh.write('<neuroml %s id="inc">%s</neuroml>' % (NS, body))
             os.chdir(root)
             try:
-                res = {"true": run(case, True), "false": run(case, False)}
-                if case.get("via_parser"):
-                    res["parser"] = run_parser(case, root)
-                out.append(res)
+                out.append(forked(case, root) if req.get("fork") else exec_case(case, root))
             finally:
+                os.chdir(home)
+                shutil.rmtree(root, ignore_errors=True)
+        # histories: several calls in THIS process over documents whose includes name the same paths, the included
+        # files being rewritten between the calls
+        for i, steps in enumerate(req.get("histories", [])):
+            root = os.path.join(top, "h%d" % i)
+            os.makedirs(root)
+            os.chdir(root)
+            del KEEP[:]
+            try:
+                rs = [exec_case(step, root, keep=True) for step in steps]
+                # no object of the copies embedded by one call may be an object of another call's copies
+                shared, seen = False, {}
+                for call, objs in KEEP:
+                    for o in objs:
+                        if seen.setdefault(id(o), call) != call:
+                            shared = True
+                hist_out.append({"steps": rs, "copies_shared_between_calls": shared})
+            finally:
+                del KEEP[:]
                 os.chdir(home)
                 shutil.rmtree(root, ignore_errors=True)
     finally:
@@ -268,7 +339,7 @@ def main():
         shutil.rmtree(top, ignore_errors=True)
     sys.stdout.flush()
     print()
-    print(json.dumps({"results": out}))
+    print(json.dumps({"results": out, "histories": hist_out}))
 
 
 if __name__ == "__main__":
